@@ -27,8 +27,8 @@ PROP = {
                   "The concurrent part judges only schedules that occur and is not built with -race in the "
                   "registered tiers (4-5x slower; one manual -race run of the whole quick tier was clean). Trusts bbolt, encoding/json, net/http/httptest.",
     "tests": [
-        ("TestVFC09History", (500, 1500), {"steps": 40}),
-        ("TestVFC09Concurrent", (150, 500)),
+        ("TestVFC09History", (400, 1500), {"steps": 40}),
+        ("TestVFC09Concurrent", (120, 500)),
     ],
     "plain": ["TestVFC09Scenarios"],
     "shards": (4, 16),
